@@ -1,7 +1,7 @@
 (* glue for the correspondence file Cases_C09.v written by harness/c09:
    a call tree (as designed, or as traced from the real interpreter) and what was observed afterwards *)
 From Coq Require Import ZArith List Bool.
-From FxV Require Import model.M_Frames.
+From FxV Require Import model.M_Frames model.M_FramesRev.
 Import ListNotations.
 Open Scope Z_scope.
 
@@ -37,13 +37,17 @@ Definition agrees (r : st mstore * bool) (c : c09_case) : bool :=
   forallb (fun kv => Z.eqb (s_stor s (fst kv)) (snd kv)) (cc_stor c) &&
   same_set (s_evs s) (cc_evs c).
 
+(* the machine with the real revision stack (M_FramesRev) *)
+Definition m_run_impl_r (body : mnodes) (en : endk) := run_impl_r mstore meff mapply body en st0.
+
 (* true = the model disagrees with the implementation (or the harness printed an ill-formed tree) *)
 Definition c09_mismatch (c : c09_case) : bool :=
   if cc_wf c then
     negb (wf_fl meff (cc_body c) &&
           agrees (m_run_impl (cc_body c) (cc_end c)) c &&
+          agrees (m_run_impl_r (cc_body c) (cc_end c)) c &&
           agrees (m_run_spec (cc_body c) (cc_end c)) c)
   else
     (* a tree that breaks W1: only the transcription of the journal is expected to reproduce what the
        implementation did (the specification is not) *)
-    negb (agrees (m_run_impl (cc_body c) (cc_end c)) c).
+    negb (agrees (m_run_impl (cc_body c) (cc_end c)) c && agrees (m_run_impl_r (cc_body c) (cc_end c)) c).
